@@ -154,7 +154,7 @@ def check_clone(r, orig, clone, deep, before):
         ks = kx if isinstance(kx, str) else 'r' if kx == ['o', 2] else 'o'
         if which == ['sealed'] and fy[0] and x is not orig:
           # an inner node that was unsealed below a sealed ancestor comes back sealed
-          return ('resealed:%s' % ks, 'inner node at %r is unsealed in the original and sealed in the clone '
+          return ('resealed:%s' % ('l' if ks == 'tl' else ks), 'inner node at %r is unsealed in the original and sealed in the clone '
                   '(the constructor of a sealed clone seals everything below)' % str(x.sym_path))
         return ('flags:%s:%s' % (ks, '+'.join(which)),
                 'flags (sealed, accessor_writable, allow_partial) %s vs %s at %r' % (fx, fy, str(x.sym_path)))
